@@ -9,6 +9,7 @@ Everything here still decides from the current source only (no execution of repo
      (checker validation - never a VIOLATION of the property)
   T6 the check is re-run on 132 behaviour-preserving AST transformations of the core files (tools/neutral.py): a false alarm makes the
      run UNDECIDED (exit 2), never a VIOLATION
+  T7 the check is re-run on the 76 behaviour-preserving refactorings written by independent sub-agents (seeded_neutral/): same convention
 """
 import ast
 import itertools
@@ -200,6 +201,42 @@ def neutral_rate(ctx):
             ctx.undecide('T6', 'the check alarms on a behaviour-preserving transformation: %s' % l)
 
 
+def refactoring_rate(ctx):
+    """T7: the property's check is re-run on the behaviour-preserving refactorings written by independent sub-agents (seeded_neutral/, 76 of them: helper
+    extraction, guard clauses, loop <-> comprehension, renamed private parameters, recursion -> iteration, ...). Checker validation only: a refactoring whose
+    patch no longer applies to the tree under analysis is skipped; an alarm on one that applies is reported as UNDECIDED, never as a VIOLATION."""
+    if ctx.P.repo != '/repo':
+        return
+    import glob
+    import shutil
+    import tempfile
+    from concurrent.futures import ThreadPoolExecutor
+
+    def one(dst):
+        sid = os.path.basename(dst)
+        d = tempfile.mkdtemp(prefix='dimarray-refac-')
+        try:
+            shutil.copytree('/repo/dimarray', os.path.join(d, 'dimarray'), ignore=shutil.ignore_patterns('__pycache__', '*.pyc'))
+            r = subprocess.run(['git', 'apply', '--whitespace=nowarn', os.path.join(dst, 'patch.diff')], cwd=d, capture_output=True, text=True)
+            if r.returncode != 0:
+                return sid, 'skipped'
+            r = subprocess.run(['/venv/bin/python', '-m', 'sa.main', ctx.prop, '--repo', d, '--tier', 'quick', '--no-evidence'], capture_output=True, text=True, cwd=VERIF)
+            return sid, ('silent' if r.returncode == 0 else 'alarm(exit %d)' % r.returncode)
+        finally:
+            shutil.rmtree(d, ignore_errors=True)
+    dsts = sorted(x for x in glob.glob(os.path.join(VERIF, 'seeded_neutral', '*')) if os.path.isdir(x))
+    with ThreadPoolExecutor(max_workers=12) as ex:
+        rows = list(ex.map(one, dsts))
+    n_s = sum(1 for _, st in rows if st == 'silent')
+    n_k = sum(1 for _, st in rows if st == 'skipped')
+    line = 'refactorings: %d written by sub-agents, %d apply, %d silent, %d alarms' % (len(rows), len(rows) - n_k, n_s, len(rows) - n_k - n_s)
+    ctx.info('T7 checker validation: ' + line)
+    ctx.selftest = ((getattr(ctx, 'selftest', None) or '') + ' | ' + line).strip(' |')
+    for sid, st in rows:
+        if st.startswith('alarm'):
+            ctx.undecide('T7', 'the check alarms on the behaviour-preserving refactoring %s: %s' % (sid, st))
+
+
 SWEEPS = {
     'C01': [sweep_index_kinds, sweep_numpy, sweep_dropped_options],
     'C02': [sweep_numpy, sweep_dropped_options],
@@ -228,3 +265,4 @@ def extra(ctx):
         fn(ctx)
     selftest_rate(ctx)
     neutral_rate(ctx)
+    refactoring_rate(ctx)
